@@ -15,9 +15,9 @@ RULE = ("synthetic in-memory DICOM series: S<=4 x T<=3 x V<=3 grids (thorough: S
         "directions; explicit time / vector / both orderings (plain key, DicomOrdering with abs_ordering or abs_as_str, "
         "staggered time values that straddle volume boundaries) or guessed key with decoy keys; default extractor or a "
         "hand-built meta argument; per-file BitsStored / PixelRepresentation / pixel range / AcquisitionTime presence "
-        "varied; x 27 defect classes (none, drop 1 / k files, drop a volume, drop a slice position, duplicate, misfiled "
+        "varied; x 28 defect classes (none, drop 1 / k files, drop a volume, drop a slice position, duplicate, misfiled "
         "duplicate, tie straddling a volume boundary, irregular gap 0.8..25 %, Rows / Columns +1, PixelSpacing and "
-        "orientation perturbed below / above 5e-5, no pixel data, colliding file, missing ordering key, extra slice "
+        "orientation perturbed below / above 5e-5, no pixel data, colliding file (also on the cell with ordinate 0 / index 0 / no ordinate, and one for every time and vector value), missing ordering key, extra slice "
         "position, vector value moved for a whole volume, vector values on unequal numbers of whole volumes, files "
         "moved between vector components, positions swapped between volumes, ordinate not in abs_ordering), 15 % with "
         "a second defect on top, x random add order, 30 % with queries interleaved between the adds, x the queries "
@@ -61,7 +61,7 @@ def gen_cases(rng, tier):
     for k in range(n):
         cfg = L.rand_config(rng, tier)
         defect = rng.choice(L.DEFECTS)
-        if defect in ('collide',) and cfg['mode'] in ('guess', 'none') and rng.random() < 0.7:
+        if defect in ('collide', 'collide_each') and cfg['mode'] in ('guess', 'none') and rng.random() < 0.8:
             cfg = L.rand_config(rng, tier, want=rng.choice(['time', 'timevec']))
         if defect == 'vec_uneven' and cfg['vector_order'] is None:
             cfg = L.rand_config(rng, tier, want=rng.choice(['vec', 'timevec']))
@@ -151,7 +151,7 @@ def run_impl(case):
 def coq_case(case, obs):
     # C11 does not talk about the array's data type or the header fields: those observations belong to C12 / C02
     if isinstance(obs, dict) and 'ops' in obs:
-        obs = dict(obs, ops=[dict(o, dtype=None, pixdim4=None, phase=None) for o in obs['ops']])
+        obs = dict(obs, ops=[dict(o, dtype=None, pixdim4=None, phase=None, aff=None) for o in obs['ops']])
     return L.coq_case(case, obs)
 
 
